@@ -583,6 +583,27 @@ func applyDamage(sp *txSpec, out string, m manifest.Manifest, d txDamage) string
 		}
 		sc.Flush()
 		os.WriteFile(dataPath, out, 0o644)
+	case "old_output":
+		// an older copy of the file from an earlier fetch (no resume metadata): longer,
+		// shorter, of the same length with other bytes, or non-empty where the source is empty
+		var n int64
+		switch d.Arg % 4 {
+		case 0:
+			n = it.Size + 37
+		case 1:
+			n = it.Size / 2
+		case 2:
+			n = it.Size
+		case 3:
+			n = 30
+		}
+		r := verifsim.NewSplitMix(uint64(d.Arg) + 99)
+		b := make([]byte, n)
+		for i := range b {
+			b[i] = byte(r.Next())
+		}
+		os.MkdirAll(filepath.Dir(dataPath), 0o755)
+		os.WriteFile(dataPath, b, 0o644)
 	case "truncate":
 		if scErr != nil || len(raw) == 0 {
 			return ""
